@@ -98,3 +98,101 @@ def clause_of(entry):
 
 def prop_of(clause):
     return clause.split(".", 1)[0]
+
+
+# --------------------------------------------------------------------------------------------------
+# Sched.tla: exhaustive model checking of a family, behaviour export, drift detection
+
+
+def write_family(path, progs):
+    with open(path, "w") as f:
+        json.dump([{"prog": p} for p in progs], f, separators=(",", ":"))
+
+
+def model_check(progs, scratch, cfg="Sched.cfg", workers=None, timeout=1800, coverage=False, chunk=None):
+    """TLC on Sched.tla over a family (program x all tie-break schedules).  Returns a dict with
+    states, transitions(generated), ok, violated invariants, and the list of exported behaviours
+    [{"beh": pid (1-based index into progs), "sched": [kind per flush round]}]."""
+    t0 = time.time()
+    d = scratch.mkdir("family")
+    chunk = chunk or len(progs)
+    res_all = {"states": 0, "generated": 0, "ok": True, "violated": [], "behaviours": [], "out": "", "depth": 0, "coverage": {}}
+    for off in range(0, len(progs), chunk):
+        part = progs[off:off + chunk]
+        path = os.path.join(d, "fam-%d-%d.json" % (os.getpid(), off))
+        write_family(path, part)
+        res = run_tlc("Sched", cfg, scratch, env={"PROGS": path}, workers=workers, timeout=timeout, coverage=coverage)
+        os.unlink(path)
+        if res.timed_out:
+            raise MachineryError("Sched model checking timed out after %ss" % timeout)
+        res_all["states"] += res.distinct
+        res_all["generated"] += res.generated
+        res_all["depth"] = max(res_all["depth"], res.depth)
+        if coverage:
+            for k, v in res.action_coverage().items():
+                a = res_all["coverage"].get(k, (0, 0))
+                res_all["coverage"][k] = (a[0] + v[0], a[1] + v[1])
+        if not res.ok:
+            res_all["ok"] = False
+            res_all["violated"] += res.invariant_violated
+            res_all["out"] = res.out[-6000:]
+            if not res.invariant_violated:
+                raise MachineryError("Sched run failed rc=%s:\n%s" % (res.rc, res.out[-4000:]))
+        for v in res.printed():
+            if isinstance(v, dict) and "beh" in v:
+                res_all["behaviours"].append({"beh": v["beh"] + off, "sched": v["sched"]})
+    res_all["wall"] = time.time() - t0
+    return res_all
+
+
+def strip_prio(events):
+    return [e for e in events if e.get("e") != "Prio"]
+
+
+def validate_sched(traces, scratch, nproc=None, chunk=300, timeout=1800):
+    """Drift detection: can Sched.tla reproduce each recorded trace?  returns ({id: None | drift-info}, stats)"""
+    nproc = nproc or max(1, NCPU // 2)
+    if not traces:
+        return {}, {"states": 0, "tlc_runs": 0, "wall": 0.0}
+    chunks = [traces[i:i + chunk] for i in range(0, len(traces), chunk)]
+    d = scratch.mkdir("straces")
+    t0 = time.time()
+
+    def one(args):
+        n, ch = args
+        path = os.path.join(d, "st-%d-%d.json" % (os.getpid(), n))
+        with open(path, "w") as f:
+            json.dump([{"id": i, "prog": t["prog"], "events": strip_prio(t["events"])} for i, t in enumerate(ch)], f,
+                      separators=(",", ":"))
+        res = run_tlc("TraceSched", "TraceSched.cfg", scratch, env={"PROGS": path}, workers=2, timeout=timeout, heap="3g")
+        os.unlink(path)
+        if res.timed_out or not res.ok:
+            raise MachineryError("TraceSched run failed rc=%s:\n%s" % (res.rc, res.out[-3000:]))
+        done = {}
+        drift = {}
+        for v in res.printed():
+            if isinstance(v, dict) and "tdone" in v:
+                if v["l"] == v["n"] + 1:
+                    done[v["tdone"]] = True
+                else:
+                    drift.setdefault(v["tdone"], []).append({"at": v["l"], "exp": {"e": "END"}, "got": "more events"})
+            elif isinstance(v, dict) and "tdrift" in v:
+                drift.setdefault(v["tdrift"], []).append(v)
+        out = []
+        for i in range(len(ch)):
+            if done.get(i):
+                out.append((ch[i]["id"], None))
+            else:
+                ds = drift.get(i) or [{"at": 0, "exp": None, "got": "no verdict"}]
+                out.append((ch[i]["id"], max(ds, key=lambda x: x["at"])))
+        return out, res.distinct
+
+    with ThreadPoolExecutor(max_workers=nproc) as ex:
+        results = list(ex.map(one, list(enumerate(chunks))))
+    out = {}
+    states = 0
+    for r, st in results:
+        states += st
+        for i, dr in r:
+            out[i] = dr
+    return out, {"states": states, "tlc_runs": len(chunks), "wall": time.time() - t0}
